@@ -1,3 +1,8 @@
 import NbioVerif.Properties.C12
+#print axioms Ws.c12_roundtrip
+#print axioms Ws.c12_mask_fast
 #print axioms Ws.c12_mask_involutive
+#print axioms Ws.c12_header
 #print axioms Ws.c12_frame
+#print axioms Ws.c12_truncWriter
+#print axioms Ws.c12_segmentation
